@@ -156,7 +156,7 @@ func runC18TCP(c C18TCP, info *kit.Info) *kit.Finding {
 			return nil
 		}
 		defer ctgt.Close()
-		cl, err := net.DialTimeout("tcp", front.Addr, 3*time.Second)
+		cl, err := kit.DialTCP(front.Addr, 3*time.Second)
 		if err != nil {
 			if kit.EnvNetError(err) {
 				return nil
@@ -212,7 +212,7 @@ func runC18TCP(c C18TCP, info *kit.Info) *kit.Finding {
 			}
 			info.NonTrivial = true
 		}
-		cl, err := net.DialTimeout("tcp", front.Addr, 3*time.Second)
+		cl, err := kit.DialTCP(front.Addr, 3*time.Second)
 		if err != nil {
 			if kit.EnvNetError(err) {
 				info.Skipped = "host out of ports: " + err.Error()
@@ -227,7 +227,7 @@ func runC18TCP(c C18TCP, info *kit.Info) *kit.Finding {
 		case "client_close":
 			cl.Close()
 		case "client_reset":
-			cl.(*net.TCPConn).SetLinger(0)
+			cl.SetLinger(0)
 			cl.Close()
 		case "target_close":
 			if tc := tgt.Accept(50 * time.Millisecond); tc != nil {
